@@ -336,7 +336,10 @@ func c12HeaderText(p *profile.Profile) string {
 
 // semantic form: function ids erased (lines resolved to function records, function table as a
 // sorted multiset) — id assignment and table order of new functions are not promised.
-func c12Sem(p *profile.Profile) string {
+func c12Sem(p *profile.Profile) string        { return c12SemX(p, true) }
+func c12SemNoRefs(p *profile.Profile) string { return c12SemX(p, false) }
+
+func c12SemX(p *profile.Profile, refs bool) string {
 	var w tw
 	w.tok(c12HeaderText(p))
 	w.tok(c12SamplesText(p))
@@ -371,7 +374,9 @@ func c12Sem(p *profile.Profile) string {
 		w.bool(l.IsFolded)
 		w.n(len(l.Line))
 		for _, ln := range l.Line {
-			w.tok(fr(ln.Function))
+			if refs {
+				w.tok(fr(ln.Function))
+			}
 			w.int(ln.Line)
 			w.int(ln.Column)
 		}
@@ -503,8 +508,11 @@ func c12Run(c *Ctx, cs c12Case) (nontrivial bool) {
 	if len(p.Function) > len(old) {
 		newCount = uint64(len(p.Function) - len(old))
 	}
-	// hypothesis of symbolize_valid: largest id in use + number of new functions fits a uint64
-	headroom := maxID+newCount >= maxID
+	// hypothesis of symbolize_valid (via symbolize_not_wrapped): largest id in use + number of new
+	// functions fits a uint64. The oracle is evaluated with a margin (ids below 2^63) so that it does
+	// not depend on HOW the code picks fresh ids; profiles with ids next to 2^64 only take part in
+	// the model comparison.
+	headroom := maxID < 1<<63 && newCount < 1<<62
 	if headroom {
 		if err := p.CheckValid(); err != nil {
 			k := "other"
@@ -519,7 +527,7 @@ func c12Run(c *Ctx, cs c12Case) (nontrivial bool) {
 			c.Violation(sig+"valid/"+k, "the symbolized profile is not valid: "+err.Error(), cs)
 		}
 	} else {
-		c.Res.Hit("id-headroom-exhausted")
+		c.Res.Hit("ids-next-to-2^64:model-comparison-only")
 	}
 	// mappings that already carry symbols are left alone unless force is requested
 	force := cs.Force
@@ -552,6 +560,36 @@ func c12Run(c *Ctx, cs c12Case) (nontrivial bool) {
 				if !same {
 					c.Violation(sig+"has-symbols/lines", fmt.Sprintf("location %d of mapping %d, which already carried symbols, was re-symbolized without force", l.ID, b.ID), cs)
 				}
+			}
+		}
+	}
+	// "updates the has-symbols flags": a flag that this run switched on must be backed by what the
+	// locations of that mapping carry (checked where only the local step ran: symbolz marks a mapping
+	// as having functions whenever the query succeeded)
+	if cs.Kind == "run" && cs.LocalOnly && cs.WantForce != 2 && len(p.Mapping) == len(before.Mapping) {
+		for i, m := range p.Mapping {
+			b := before.Mapping[i]
+			var fn, fl, ln, any bool
+			for _, l := range p.Location {
+				if l.Mapping != m {
+					continue
+				}
+				for _, x := range l.Line {
+					any = true
+					if x.Function != nil && x.Function.SystemName != "" {
+						fn = true
+					}
+					if x.Function != nil && x.Function.Filename != "" {
+						fl = true
+					}
+					if x.Line != 0 {
+						ln = true
+					}
+				}
+			}
+			if m.HasFunctions && !b.HasFunctions && !fn || m.HasFilenames && !b.HasFilenames && !fl ||
+				m.HasLineNumbers && !b.HasLineNumbers && !ln || m.HasInlineFrames && !b.HasInlineFrames && !any {
+				c.Violation(sig+"flags/set-without-symbols", fmt.Sprintf("a has-symbols flag of mapping %d was switched on although no location of it carries such information", b.ID), cs)
 			}
 		}
 	}
@@ -685,7 +723,13 @@ func c12Run(c *Ctx, cs c12Case) (nontrivial bool) {
 	if mErr != (runErr != nil) {
 		c.Disagree("C12/model/"+cs.Kind+"/error-class", fmt.Sprintf("model error=%v, code error=%v", mErr, runErr), broken, cs)
 	}
-	if gs, ms := c12Sem(p), c12Sem(mp); gs != ms {
+	if !headroom {
+		// ids next to 2^64: the id counter may wrap, ids are then not unique and lines cannot be
+		// resolved through ids; compare everything except ids and line→function references
+		if c12SemNoRefs(p) != c12SemNoRefs(mp) {
+			c.Disagree("C12/model/"+cs.Kind+"/wrapped/"+diffField(Canon(p), Canon(mp)), "symbolized profile differs from the model's (ids next to 2^64; compared without function references)", broken, cs)
+		}
+	} else if gs, ms := c12Sem(p), c12Sem(mp); gs != ms {
 		c.Disagree("C12/model/"+cs.Kind+"/"+diffField(Canon(p), Canon(mp)), "symbolized profile differs from the model's (function ids erased)", broken, cs)
 	} else if Canon(p) == Canon(mp) {
 		c.Res.Hit("model:ids-identical")
@@ -846,7 +890,7 @@ func c12Profile(r *Rng, o c12GenOpts) *profile.Profile {
 			case "big":
 				id = 1<<40 + uint64(r.Intn(1<<20))
 				if r.Chance(30) {
-					id = 1<<63 + uint64(r.Intn(8))
+					id = 1<<62 + uint64(r.Intn(8))
 				}
 			default: // wrap: ids next to 2^64
 				id = ^uint64(0) - uint64(r.Intn(4))
@@ -891,8 +935,8 @@ func c12Profile(r *Rng, o c12GenOpts) *profile.Profile {
 			default:
 				l.Address = m.Start + uint64(r.Intn(0x800))
 			}
-			if r.Chance(25) && i > 0 && p.Location[i-1].Mapping == m {
-				l.Address = p.Location[i-1].Address // same address twice
+			if r.Chance(25) && i > 0 {
+				l.Address = p.Location[i-1].Address // same address twice, possibly in another mapping
 			}
 		} else {
 			l.Address = uint64(r.Intn(0x10000))
